@@ -197,7 +197,8 @@ func simC16(c *sim.Ctx) {
 		var pullErrs []error
 		steps := 0
 		idleAdvance := 0
-		for steps < 300 {
+		var afterCancel *item // what the read in progress at cancellation will return
+		for steps < 300 && !cancelled {
 			steps++
 			b.Settle()
 			if closed && !st.pending {
@@ -286,6 +287,12 @@ func simC16(c *sim.Ctx) {
 				sentBeforeCancel = len(sent)
 				if st.pending {
 					c.Probe("cancel_during_read")
+					// Drawn now: whether a packet returned by that read is still
+					// delivered is decided by Go's select among ready cases, which
+					// the simulator does not own, so nothing after this point may
+					// depend on it (no further tape draws, no further log events).
+					it := nextItem()
+					afterCancel = &it
 				}
 				cancel()
 				b.Settle()
@@ -326,8 +333,24 @@ func simC16(c *sim.Ctx) {
 				}
 			}
 			if cancelled && st.pending {
-				st.feed <- item{kind: 3, err: io.EOF}
+				it := item{kind: 3, err: io.EOF}
+				if afterCancel != nil {
+					it = *afterCancel
+				}
+				if it.kind == 0 {
+					sent = append(sent, it)
+				}
+				if it.kind == 3 {
+					st.termSeen = true
+				}
+				st.feed <- it
 				b.Settle()
+				// once the read in progress has returned, no new read starts
+				time.Sleep(20 * time.Millisecond)
+				b.Settle()
+				if st.pending {
+					c.Fail("cancel", "read-started-after-cancel", "packetsToChannel", "the context was cancelled and the read in progress returned (kind %d), yet the source is being read again", it.kind)
+				}
 			}
 			// drain
 			for k := 0; k < 1200 && !closed; k++ {
